@@ -54,7 +54,8 @@ Record INVx (qx : option nat) (tx : bool) (s : conn) : Prop := mkINV {
           Forall (fun ch => reg ch = false) (chans s);
   iv_own : owner_live s = negb (closed s) /\
            ostate (olog s) = (if owner_live s then (if connect_w s then OM else OA) else OL);
-  iv_kc : (forall e, In (KConnCleanup e) (ready s) -> transport s = false) /\ (tx = true -> transport s = false)
+  iv_kc : (forall e, In (KConnCleanup e) (ready s) -> transport s = false) /\ (tx = true -> transport s = false);
+  iv_nm : Forall (fun ch => pc ch <> CMade) (chans s)      (* CMade only exists inside one run of create() *)
 }.
 Definition INV := INVx None false.
 
@@ -77,14 +78,15 @@ Lemma on_chan_INV qx tx c f slack (pre : chan -> Prop) s :
   INVx qx tx s ->
   (forall ch, nth_error (chans s) c = Some ch -> cinv ch ->
      pre ch /\ gs c slack pre f (cx0 ch) /\
-     (closed s = true -> reg (x_ch (f (cx0 ch))) = true -> reg ch = true)) ->
+     (closed s = true -> reg (x_ch (f (cx0 ch))) = true -> reg ch = true) /\
+     (pc ch <> CMade -> pc (x_ch (f (cx0 ch))) <> CMade)) ->
   INVx qx tx (on_chan c f s).
 Proof.
-  intros [Hch Hq Htr Hcl Hown Hkc] Hf.
+  intros [Hch Hq Htr Hcl Hown Hkc Hnm] Hf.
   destruct (nth_error (chans s) c) as [ch|] eqn:E; [|rewrite on_chan_none; [constructor; auto | exact E]].
   destruct (on_chan_some s c ch f E) as (E1 & E2 & E3 & E4 & E5 & E6 & E7 & E8 & E9 & E10).
   pose proof (Forall_nth _ _ _ _ Hch E) as Hci.
-  destruct (Hf ch eq_refl Hci) as (Hp & [I K] & Hr).
+  destruct (Hf ch eq_refl Hci) as (Hp & [I K] & Hr & Hm).
   destruct (K Hp) as (ks & Ek & _ & Kq & Kn). simpl in Ek.
   constructor; rewrite ?E1, ?E2, ?E3, ?E4, ?E6, ?E7, ?E8, ?E9, ?E10.
   - apply Forall_upd; auto.
@@ -104,6 +106,7 @@ Proof.
   - exact Hown.
   - destruct Hkc as [Hk1 Hk2]. split; [|exact Hk2]. intros e He. apply in_app_or in He as [He|He]; [eauto|].
     rewrite Ek in He. rewrite forallb_forall in Kn. specialize (Kn _ He). discriminate.
+  - apply Forall_upd; auto. apply Hm. apply (Forall_nth _ _ _ _ Hnm E).
 Qed.
 
 (* the same for a handler that leaves the create() program counter alone *)
@@ -115,7 +118,8 @@ Lemma on_chan_INV_m qx tx c f n (pre : chan -> Prop) s :
 Proof.
   intros Hi Hp Hg. apply (on_chan_INV qx tx c f n pre s Hi).
   intros ch E Hc. split; [apply Hp; auto|]. split; [apply gsm_gs; apply Hg|].
-  intros _ Hr. destruct (Hg (cx0 ch)) as [_ K]. destruct (K (Hp ch E Hc)) as (ks & _ & _ & _ & R & _). apply R; exact Hr.
+  destruct (Hg (cx0 ch)) as [_ K]. destruct (K (Hp ch E Hc)) as (ks & _ & Epc & _ & R & _).
+  split; [intros _ Hr; apply R; exact Hr | simpl in Epc; rewrite Epc; auto].
 Qed.
 
 Lemma on_chan_pot c f slack (pre : chan -> Prop) s ch :
@@ -135,7 +139,7 @@ Lemma INVx_ext qx tx s s' :
   olog s' = olog s -> ready s' = ready s ->
   INVx qx tx s -> INVx qx tx s'.
 Proof.
-  intros E1 E2 E3 E4 E5 E6 E7 E8 Hr [Hch Hq Htr Hcl Hown Hkc].
+  intros E1 E2 E3 E4 E5 E6 E7 E8 Hr [Hch Hq Htr Hcl Hown Hkc Hnm].
   constructor; rewrite ?E1, ?E2, ?E3, ?E4, ?E5, ?E6, ?E7, ?E8, ?Hr; auto.
 Qed.
 
@@ -149,7 +153,7 @@ Proof. apply INVx_ext; destruct s; auto. Qed.
 Lemma INV_force_close qx tx e s : INVx qx tx s -> INVx qx tx (force_close e s).
 Proof.
   unfold force_close. destruct (transport s) eqn:Et; auto.
-  intros [Hch Hq Htr Hcl Hown Hkc]. destruct s; cbn in *. constructor; cbn; auto.
+  intros [Hch Hq Htr Hcl Hown Hkc Hnm]. destruct s; cbn in *. constructor; cbn; auto.
   - intros c ch En Hqd. destruct (Hq c ch En Hqd); auto. left. apply in_or_app; auto.
   - intros _. right; left. exists e. apply in_or_app; right; left; reflexivity.
   - intros Hc. destruct (Hcl Hc) as (A & _). congruence.
@@ -178,13 +182,14 @@ Qed.
 Lemma on_regs_from_INV_gs qx tx (f : nat -> cx -> cx) :
   (forall c x, gs c 0 ptrue (f c) x) ->
   (forall c x, reg (x_ch (f c x)) = true -> reg (x_ch x) = true) ->
+  (forall c x, pc (x_ch x) <> CMade -> pc (x_ch (f c x)) <> CMade) ->
   forall fuel i s, INVx qx tx s -> INVx qx tx (on_regs_from f i fuel s).
 Proof.
-  intros Hg Hr. induction fuel as [|k IH]; intros i s Hi; simpl; auto.
+  intros Hg Hr Hm. induction fuel as [|k IH]; intros i s Hi; simpl; auto.
   apply IH. destruct (nth_error (chans s) i) as [ch|] eqn:E; auto.
   destruct (reg ch); auto.
   apply (on_chan_INV qx tx i (f i) 0 ptrue); auto. intros ch' E' Hc. split; [exact I|]. split; [apply Hg|].
-  intros _ H. apply (Hr i (cx0 ch') H).
+  split; [intros _ H; apply (Hr i (cx0 ch') H) | apply (Hm i (cx0 ch'))].
 Qed.
 
 (* ------------------------------------------------------------ registration never switched on by a handler *)
@@ -231,6 +236,59 @@ Proof.
     destruct x as [ch k p d]; destruct ch. cbn. auto.
 Qed.
 
+(* ------------------------------------------------------------ CMade never survives a handler *)
+Lemma pc_upc_eq f x : (forall ch, pc (f ch) = pc ch) -> pc (x_ch (upc f x)) = pc (x_ch x).
+Proof. intros H. destruct x as [ch k p d]. apply H. Qed.
+Lemma cleanup_tail_pc c e y : pc (x_ch (cleanup4 (cleanup3 c (cleanup2 c e y)))) = pc (x_ch y).
+Proof.
+  assert (H2 : pc (x_ch (cleanup2 c e y)) = pc (x_ch y)).
+  { destruct y as [ch k p d]; destruct ch. dmv; reflexivity. }
+  rewrite <- H2. generalize (cleanup2 c e y). intros z.
+  destruct z as [ch k p d]; destruct ch. dmv; reflexivity.
+Qed.
+Lemma chan_cleanup_nm c e x : pc (x_ch x) <> CMade -> pc (x_ch (chan_cleanup c e x)) <> CMade.
+Proof.
+  intros H. unfold chan_cleanup. rewrite force_eq, cleanup_tail_pc.
+  unfold cleanup1. rewrite force_eq. destruct x as [ch k p d]; destruct ch; cbn in *.
+  destruct pc; cbn; auto; discriminate.
+Qed.
+Lemma conn_close_chan_nm c e x : pc (x_ch x) <> CMade -> pc (x_ch (conn_close_chan c e x)) <> CMade.
+Proof.
+  intros H. unfold conn_close_chan. rewrite force_eq. apply chan_cleanup_nm.
+  destruct (close_send_spec c (upc (set_ss SClosed) x)) as [_ K]. destruct (K I) as (ks & _ & E & _).
+  rewrite E. rewrite pc_upc_eq; [exact H|]. intros ch; destruct ch; reflexivity.
+Qed.
+Lemma chan_confirm_nm c x : pc (x_ch (chan_confirm c x)) <> CMade.
+Proof. unfold chan_confirm. rewrite force_eq. destruct x as [ch k p d]; destruct ch; cbn. discriminate. Qed.
+Lemma chan_fail_nm c x : pc (x_ch (chan_fail c x)) <> CMade.
+Proof. unfold chan_fail. rewrite force_eq. destruct x as [ch k p d]; destruct ch; cbn. discriminate. Qed.
+Lemma chan_reply_nm c ok x : pc (x_ch x) <> CMade -> pc (x_ch (chan_reply c ok x)) <> CMade.
+Proof.
+  unfold chan_reply. rewrite force_eq. destruct x as [ch k p d]; destruct ch; cbn.
+  destruct pc; cbn; auto; discriminate.
+Qed.
+Lemma create_step_nm c tr x : pc (x_ch x) <> CMade -> pc (x_ch (create_step c tr x)) <> CMade.
+Proof.
+  intros Hx.
+  assert (Hd : forall r y, pc (x_ch (create_done c r y)) = CDone r)
+    by (intros r y; unfold create_done; rewrite force_eq; destruct y as [ch k p d]; reflexivity).
+  assert (Hrf : forall y, pc (x_ch (req_false c y)) = CDone WErr) by (intros y; unfold req_false; apply Hd).
+  assert (Hmr : forall st y, pc (x_ch (make_request c st y)) <> CMade).
+  { intros st y. unfold make_request. rewrite force_eq. destruct (schan (x_ch y)).
+    - unfold req_sent. rewrite force_eq. destruct (csend (KtReq c st) y) as [ch k p d]. discriminate.
+    - rewrite Hrf. discriminate. }
+  unfold create_step, create_step_gen; rewrite !force_eq; cbn [andb].
+  destruct (pc (x_ch x)) as [| | |r| |st|st r|r] eqn:Epc; try (rewrite Epc; discriminate); try congruence.
+  - unfold create_start. rewrite force_eq. destruct tr; [destruct x as [ch k p d]; discriminate | rewrite Hd; discriminate].
+  - destruct r; try (rewrite Hd; discriminate). destruct (negb (reg (x_ch x))); [rewrite Hd; discriminate | apply Hmr].
+  - destruct st, r; try (rewrite Hd; discriminate); try (rewrite Hrf; discriminate); try apply Hmr.
+    destruct (se (x_ch x)); try (rewrite Hd; discriminate).
+    unfold sess_started. rewrite force_eq.
+    destruct (create_done c WOk (upc (fun ch : chan => set_handle true (addlog CbStarted ch)) x)) as [ch k p d] eqn:E.
+    assert (pc ch = CDone WOk) by (change ch with (x_ch (mkCx ch k p d)); rewrite <- E; apply Hd).
+    cbn. rewrite H. discriminate.
+Qed.
+
 (* ------------------------------------------------------------ packets *)
 Lemma INV_rx qx tx f s :
   (forall s, INVx qx tx s -> INVx qx tx (f s)) -> INVx qx tx s -> INVx qx tx (rx f s).
@@ -250,13 +308,14 @@ Qed.
 Lemma INV_chan_pkt_gs qx tx c guard f n (pre : chan -> Prop) s :
   (forall ch, guard ch = true -> reg ch = true -> pre ch) -> (forall x, gs c n pre f x) ->
   (forall x, reg (x_ch (f x)) = reg (x_ch x)) ->
+  (forall x, pc (x_ch x) <> CMade -> pc (x_ch (f x)) <> CMade) ->
   INVx qx tx s -> INVx qx tx (chan_pkt c guard f s).
 Proof.
-  intros Hp Hg Hr Hi. unfold chan_pkt. destruct (nth_error (chans s) c) as [ch|] eqn:E; [|apply INV_proto_err, Hi].
+  intros Hp Hg Hr Hm Hi. unfold chan_pkt. destruct (nth_error (chans s) c) as [ch|] eqn:E; [|apply INV_proto_err, Hi].
   destruct (reg ch && guard ch) eqn:Eg; [|apply INV_proto_err, Hi].
   apply andb_true_iff in Eg as [Er Eg].
   apply (on_chan_INV qx tx c f n pre); auto. intros ch' E' _. rewrite E in E'. injection E' as <-.
-  split; [auto|]. split; [apply Hg|]. intros _. rewrite Hr. auto.
+  split; [auto|]. split; [apply Hg|]. split; [intros _; rewrite Hr; auto | apply (Hm (cx0 ch))].
 Qed.
 
 (* ------------------------------------------------------------ a new channel *)
@@ -267,10 +326,10 @@ Proof. constructor; cbn; intros; try discriminate; try congruence; auto. Qed.
 
 Lemma INV_new_chan qx tx nc K s :
   cinv nc -> (pc_queued (pc nc) = true -> K = KCreate (length (chans s))) -> not_kc K = true ->
-  (closed s = true -> reg nc = false) ->
+  pc nc <> CMade -> (closed s = true -> reg nc = false) ->
   INVx qx tx s -> INVx qx tx (set_ready (ready s ++ [K]) (set_chans (chans s ++ [nc]) s)).
 Proof.
-  intros Hc Hk Hnk Hr [Hch Hq Htr Hcl Hown [Hk1 Hk2]]. destruct s; cbn in *. constructor; cbn; auto.
+  intros Hc Hk Hnk Hnm0 Hr [Hch Hq Htr Hcl Hown [Hk1 Hk2] Hnm]. destruct s; cbn in *. constructor; cbn; auto.
   - apply Forall_app; split; auto.
   - intros c ch En Hqd. destruct (Nat.lt_ge_cases c (length chans)) as [Hlt|Hge].
     + rewrite nth_error_app1 in En by exact Hlt. destruct (Hq c ch En Hqd); auto. left; apply in_or_app; auto.
@@ -281,6 +340,7 @@ Proof.
   - intros Hc'. destruct (Hcl Hc') as (A1 & A2 & A3 & A4 & A5). repeat split; auto.
     apply Forall_app; split; auto.
   - split; auto. intros e He. apply in_app_or in He as [He|[He|[]]]; eauto. subst K. discriminate.
+  - apply Forall_app; split; auto.
 Qed.
 
 (* ------------------------------------------------------------ SSHConnection._cleanup *)
@@ -336,12 +396,13 @@ Proof.
   assert (Hi1 : INVx qx tx s1).
   { apply on_regs_from_INV_gs; auto.
     - intros c x. apply conn_close_chan_spec.
-    - intros c x. rewrite conn_close_chan_reg. discriminate. }
+    - intros c x. rewrite conn_close_chan_reg. discriminate.
+    - intros c x. apply conn_close_chan_nm. }
   assert (Hun : Forall (fun ch => reg ch = false) (chans s1)).
   { apply on_regs_from_unreg; auto. intros; apply conn_close_chan_reg. intros j ch Hj; lia. }
   destruct (on_regs_from_fields (fun c => conn_close_chan c e) (length (chans s)) 0 s)
     as (F1 & F2 & F3 & F4 & F5 & F6 & F7 & F8 & F9). fold s1 in F1, F2, F3, F4, F5, F6, F7, F8, F9.
-  destruct Hi1 as [Hch Hq Htr Hcl [Ho1 Ho2] [Hk1 Hk2]].
+  destruct Hi1 as [Hch Hq Htr Hcl [Ho1 Ho2] [Hk1 Hk2] Hnm].
   destruct s1 as [chs tr rxo cl gw cw cnw ol olg rdy ot dn]; cbn in *. subst tr.
   unfold add_done; cbn.
   destruct cnw; destruct ol; cbn; constructor; cbn; auto; try (intros; repeat split; auto; fail);
@@ -357,7 +418,7 @@ Definition tx_of (k : kont) : bool := match k with KConnCleanup _ => true | _ =>
 
 Lemma INV_pop k r s : INV s -> ready s = k :: r -> INVx (qx_of k) (tx_of k) (set_ready r s).
 Proof.
-  intros [Hch Hq Htr Hcl Hown [Hk1 Hk2]] Hr. destruct s; cbn in *. subst ready.
+  intros [Hch Hq Htr Hcl Hown [Hk1 Hk2] Hnm] Hr. destruct s; cbn in *. subst ready.
   constructor; cbn; auto.
   - intros c ch En Hqd. destruct (Hq c ch En Hqd) as [[E|Hin]|?]; auto; try discriminate. subst k. right; reflexivity.
   - intros Ht. destruct (Htr Ht) as [?|[[e [E|He]]|?]]; auto.
@@ -371,7 +432,7 @@ Qed.
 Lemma INVx_unq c tx s :
   INVx (Some c) tx s -> (forall ch, nth_error (chans s) c = Some ch -> pc_queued (pc ch) = false) -> INVx None tx s.
 Proof.
-  intros [Hch Hq Htr Hcl Hown Hkc] Hu. constructor; auto.
+  intros [Hch Hq Htr Hcl Hown Hkc Hnm] Hu. constructor; auto.
   intros c' ch En Hqd. destruct (Hq c' ch En Hqd) as [?|E]; auto. injection E as <-. rewrite (Hu ch En) in Hqd. discriminate.
 Qed.
 
@@ -379,14 +440,16 @@ Lemma INV_run_kont k r s : INV s -> ready s = k :: r -> INV (run_kont k (set_rea
 Proof.
   intros Hi Hr. pose proof (INV_pop k r s Hi Hr) as Hp. unfold run_kont, run_kont_gen.
   destruct k as [e|c e|c|c|c]; cbn [qx_of tx_of] in Hp.
-  - apply INV_conn_cleanup with (tx := true); auto. destruct Hp as [_ _ _ _ _ [_ H]]. apply H; reflexivity.
+  - apply INV_conn_cleanup with (tx := true); auto. destruct Hp as [_ _ _ _ _ [_ H] _]. apply H; reflexivity.
   - apply (on_chan_INV None false c (chan_cleanup c e) 0 ptrue); auto.
-    intros ch _ _. split; [exact I|]. split; [apply chan_cleanup_spec|]. intros _. rewrite chan_cleanup_reg. discriminate.
+    intros ch _ _. split; [exact I|]. split; [apply chan_cleanup_spec|].
+    split; [intros _; rewrite chan_cleanup_reg; discriminate | apply (chan_cleanup_nm c e (cx0 ch))].
   - assert (Ht : transport (set_ready r s) = transport s) by (destruct s; reflexivity).
     apply INVx_unq with (c := c).
     + apply (on_chan_INV (Some c) false c _ 0 ptrue); auto.
       intros ch _ _. split; [exact I|]. split; [apply create_step_spec|].
-      intros Hc. destruct Hp as [_ _ _ Hcl _ _]. destruct (Hcl Hc) as (Hf & _). rewrite Hf. apply create_step_reg.
+      split; [|apply (create_step_nm c _ (cx0 ch))].
+      intros Hc. destruct Hp as [_ _ _ Hcl _ _ _]. destruct (Hcl Hc) as (Hf & _). rewrite Hf. apply create_step_reg.
     + intros ch En.
       destruct (nth_error (chans (set_ready r s)) c) as [ch0|] eqn:E0.
       * destruct (on_chan_some _ c ch0 (create_step c (transport (set_ready r s))) E0) as (E1 & _).
@@ -423,7 +486,7 @@ Lemma INV_step s o : INV s -> INV (step s o).
 Proof.
   intros Hi. unfold step, step_gen. destruct o.
   - (* LOpen *)
-    apply INV_new_chan; auto. apply cinv_new_client.
+    apply INV_new_chan; auto; [apply cinv_new_client | discriminate].
   - apply (on_chan_INV_m None false c (write_eof c) 0 ptrue); auto; [intros; exact I | intros; apply write_eof_spec].
   - apply (on_chan_INV_m None false c (chan_close c) 1 ptrue); auto; [intros; exact I | intros; apply chan_close_spec].
   - apply (on_chan_INV_m None false c (chan_abort c) 1 ptrue); auto; [intros; exact I | intros; apply chan_abort_spec].
@@ -435,22 +498,22 @@ Proof.
   - apply (on_chan_INV_m None false c (chan_drain c) 0 ptrue); auto; [intros; exact I | intros; apply chan_drain_spec].
   - (* LGlobal *)
     destruct (transport s) eqn:Et; [|apply INV_add_done, Hi].
-    apply INV_emit. destruct Hi as [Hch Hq Htr Hcl Hown Hkc]. destruct s; cbn in *. constructor; cbn; auto.
+    apply INV_emit. destruct Hi as [Hch Hq Htr Hcl Hown Hkc Hnm]. destruct s; cbn in *. constructor; cbn; auto.
     intros Hc. destruct (Hcl Hc) as (A & _). congruence.
   - (* LConnClose *)
     apply INV_force_close, INV_emit. apply (INV_on_regs_m chan_close 1); auto. intros; apply chan_close_spec.
   - apply INV_force_close, Hi.
   - (* LConnWaitClosed *)
     destruct (closed s) eqn:Ec; [apply INV_add_done, Hi|].
-    destruct Hi as [Hch Hq Htr Hcl Hown Hkc]. destruct s; cbn in *. constructor; cbn; auto.
+    destruct Hi as [Hch Hq Htr Hcl Hown Hkc Hnm]. destruct s; cbn in *. constructor; cbn; auto.
     intros Hc. congruence.
   - (* PIgnore *) apply INV_rx; auto.
   - apply INV_rx; auto. intros s0 H0.
     apply (INV_chan_pkt_gs None false c is_open_wait (chan_confirm c) 0 (fun ch => is_open_wait ch = true /\ reg ch = true)); auto.
-    + intros; apply chan_confirm_spec. + intros; apply chan_confirm_reg.
+    + intros; apply chan_confirm_spec. + intros; apply chan_confirm_reg. + intros x _; apply chan_confirm_nm.
   - apply INV_rx; auto. intros s0 H0.
     apply (INV_chan_pkt_gs None false c is_open_wait (chan_fail c) 1 (fun ch => is_open_wait ch = true /\ reg ch = true)); auto.
-    + intros; apply chan_fail_spec. + intros; apply chan_fail_reg.
+    + intros; apply chan_fail_spec. + intros; apply chan_fail_reg. + intros x _; apply chan_fail_nm.
   - apply INV_rx; auto. intros s0 H0.
     apply (INV_chan_pkt_m None false c rs_open (chan_data c) 0 (fun ch => rs ch = ROpen)); auto.
     + intros ch Hg _. unfold rs_open in Hg. destruct (rs ch); congruence. + intros; apply chan_data_spec.
@@ -465,24 +528,24 @@ Proof.
     + intros; exact I. + intros; apply chan_adjust_spec.
   - apply INV_rx; auto. intros s0 H0.
     apply (INV_chan_pkt_gs None false c is_req_wait (chan_reply c ok) 0 (fun ch => reg ch = true)); auto.
-    + intros; apply chan_reply_spec. + intros; apply chan_reply_reg.
+    + intros; apply chan_reply_spec. + intros; apply chan_reply_reg. + intros; apply chan_reply_nm; auto.
   - (* PGlobalReply *)
     apply INV_rx; auto. intros s0 H0. destruct (glob_w s0) as [|n] eqn:Eg; [apply INV_proto_err, H0|].
-    apply INV_add_done. destruct H0 as [Hch Hq Htr Hcl Hown Hkc]. destruct s0; cbn in *. constructor; cbn; auto.
+    apply INV_add_done. destruct H0 as [Hch Hq Htr Hcl Hown Hkc Hnm]. destruct s0; cbn in *. constructor; cbn; auto.
     intros Hc. destruct (Hcl Hc) as (_ & A & _). congruence.
   - (* PDisconnect *) apply INV_rx; auto. intros s0 H0. apply INV_force_close, H0.
   - (* POpen *)
     apply INV_rx; auto. intros s0 H0. destruct (accept && transport s0) eqn:Ea; [|apply INV_emit, H0].
     apply andb_true_iff in Ea as [_ Et].
-    apply INV_new_chan; auto; [apply cinv_new_server | discriminate |].
-    intros Hc. destruct H0 as [_ _ _ Hcl _ _]. destruct (Hcl Hc) as (A & _). congruence.
+    apply INV_new_chan; auto; [apply cinv_new_server | discriminate | discriminate |].
+    intros Hc. destruct H0 as [_ _ _ Hcl _ _ _]. destruct (Hcl Hc) as (A & _). congruence.
   - apply INV_rx; auto. intros s0 H0.
     apply (INV_chan_pkt_m None false c rs_openish_ch (chan_request c final want accept) 1 ptrue); auto.
     + intros; exact I. + intros; apply chan_request_spec.
   - (* PBad *) apply INV_rx; auto. intros; apply INV_proto_err; auto.
   - (* PAuthOk *)
     apply INV_rx; auto. intros s0 H0. destruct (connect_w s0) eqn:Ecw; auto.
-    destruct H0 as [Hch Hq Htr Hcl [Ho1 Ho2] Hkc]. unfold add_done. destruct s0; cbn in *. subst connect_w.
+    destruct H0 as [Hch Hq Htr Hcl [Ho1 Ho2] Hkc Hnm]. unfold add_done. destruct s0; cbn in *. subst connect_w.
     constructor; cbn; auto.
     + intros Hc. destruct (Hcl Hc) as (_ & _ & _ & A & _). discriminate.
     + split; auto. unfold ostate in *. rewrite fold_left_app. cbn.
@@ -580,3 +643,127 @@ Proof.
 Qed.
 Lemma drain_transport n s : transport s = false -> transport (drain n s) = false.
 Proof. revert s; induction n as [|n IH]; intros s Ht; [exact Ht|]. rewrite drain_S. apply IH. apply run_ready_transport, Ht. Qed.
+
+(* ================================================================== the theorems ===== *)
+(* a channel with nothing left hanging: create_session finished (or the channel was opened by the
+   peer), no reader / drainer / wait_closed() caller blocked *)
+Definition chan_quiet (ch : chan) : Prop :=
+  (pc ch = CNone \/ exists r, pc ch = CDone r) /\ st_rd ch = false /\ st_dr ch = 0 /\ closed_w ch = 0.
+Definition all_resolved (s : conn) : Prop :=
+  ready s = [] /\ closed s = true /\ glob_w s = 0 /\ cclosed_w s = 0 /\ connect_w s = false /\
+  Forall chan_quiet (chans s).
+
+Lemma quiet_of_closed s : INV s -> closed s = true -> ready s = [] -> all_resolved s.
+Proof.
+  intros [Hch Hq Htr Hcl Hown Hkc Hnm] Hc Hr. destruct (Hcl Hc) as (A1 & A2 & A3 & A4 & A5).
+  repeat split; auto.
+  apply Forall_forall. intros ch Hin. destruct (In_nth_error _ _ Hin) as [c En].
+  pose proof (Forall_nth _ _ _ _ Hch En) as [H1 H2 H3 H4 H5 H6 H7 H8 H9 H10 H11 H12].
+  pose proof (Forall_nth _ _ _ _ A5 En) as Hreg. simpl in Hreg.
+  pose proof (Forall_nth _ _ _ _ Hnm En) as Hm. simpl in Hm.
+  assert (Hnq : pc_queued (pc ch) = false).
+  { destruct (pc_queued (pc ch)) eqn:E; auto. destruct (Hq c ch En E) as [Hi|Hi]; [rewrite Hr in Hi; destruct Hi | discriminate]. }
+  specialize (H1 Hreg).
+  assert (Hlive : se ch <> SLive) by (intros E; specialize (H6 E); congruence).
+  repeat split.
+  - destruct (pc ch); cbn in *; try discriminate; try congruence; eauto.
+  - destruct (st_rd ch) eqn:E; auto. destruct (H3 eq_refl) as (E' & _). congruence.
+  - destruct (Nat.eq_dec (st_dr ch) 0) as [E|Hne]; [exact E|]. destruct (H4 Hne) as (E' & _). congruence.
+  - destruct (Nat.eq_dec (closed_w ch) 0) as [E|Hne]; [exact E|].
+    specialize (H5 Hne). specialize (H7 H5 Hreg). specialize (H2 H7). exact H2.
+Qed.
+
+(* once the transport has been given up, running the ready queue to exhaustion resolves everything *)
+Lemma resolved_after_loss ops :
+  let s := run ops init in transport s = false -> all_resolved (step s Settle).
+Proof.
+  intros s Ht. unfold step, step_gen. fold (drain (pot s) s).
+  assert (Hi : INV (drain (pot s) s)) by (apply INV_drain, INV_run, INV_init).
+  assert (Hr : ready (drain (pot s) s) = []) by (apply drain_empty; lia).
+  assert (Ht' : transport (drain (pot s) s) = false) by (apply drain_transport, Ht).
+  apply quiet_of_closed; auto.
+  destruct Hi as [_ _ Htr _ _ _ _]. destruct (Htr Ht') as [?|[[e He]|?]]; auto; [rewrite Hr in He; destruct He | discriminate].
+Qed.
+
+(* the ops that end the connection *)
+Definition ends (o : op) : bool :=
+  match o with Cut | LConnAbort | LConnClose | PDisconnect _ | PBad => true | _ => false end.
+Lemma force_close_transport e s : transport (force_close e s) = false.
+Proof. unfold force_close. destruct (transport s) eqn:E; [destruct s; reflexivity | exact E]. Qed.
+Lemma ends_transport o s : ends o = true -> transport (step s o) = false.
+Proof.
+  destruct o; cbn; try discriminate; intros _; try apply force_close_transport.
+  - unfold rx. destruct (transport s) eqn:E; [apply force_close_transport|].
+    destruct (rx_ok s); [apply force_close_transport | exact E].
+  - unfold rx. destruct (transport s) eqn:E; [apply force_close_transport|].
+    destruct (rx_ok s); [apply force_close_transport | exact E].
+Qed.
+Lemma resolved ops o : ends o = true -> all_resolved (run (ops ++ [o; Settle]) init).
+Proof.
+  intros He. unfold run. rewrite fold_left_app. cbn [fold_left].
+  change (fold_left step ops init) with (run ops init).
+  change (all_resolved (step (run (ops ++ [o]) init) Settle)) || idtac.
+  assert (E : step (run ops init) o = run (ops ++ [o]) init) by (unfold run; rewrite fold_left_app; reflexivity).
+  rewrite E. apply (resolved_after_loss (ops ++ [o])). rewrite <- E. apply ends_transport, He.
+Qed.
+
+(* callback logs *)
+Definition legal_log (l : list cb) : Prop := lstate l <> LBad.
+Definition finished_log (l : list cb) : Prop := lstate l = L0 \/ lstate l = LLost.
+Definition count_lost (l : list cb) : nat := length (filter (fun e => match e with CbLost _ => true | _ => false end) l).
+
+Lemma lstate_facts l :
+  (lstate l = L0 -> l = []) /\
+  ((lstate l = LMade \/ lstate l = LEofd) -> count_lost l = 0 /\ hd_error l = Some CbMade) /\
+  (lstate l = LLost -> count_lost l = 1 /\ exists pre e, l = pre ++ [CbLost e] /\ count_lost pre = 0 /\
+                         (pre = [] \/ hd_error pre = Some CbMade)).
+Proof.
+  induction l as [|a l IH] using rev_ind.
+  - cbn. split; [auto|]. split; [intros [H|H]; discriminate | discriminate].
+  - rewrite lstate_snoc. destruct IH as (I0 & I1 & I2).
+    unfold count_lost in *. rewrite filter_app, app_length. cbn [filter].
+    destruct (lstate l) eqn:El; destruct a as [| | | |e]; try destruct e; cbn [lstep length app];
+      (split; [intros H; try discriminate | split; [intros [H|H]; try discriminate | intros H; try discriminate]]).
+    all: try (rewrite (I0 eq_refl); cbn; auto; fail).
+    all: try (destruct (I1 (or_introl eq_refl)) as [C Hh]; split; [lia | destruct l; [discriminate | exact Hh]]).
+    all: try (destruct (I1 (or_intror eq_refl)) as [C Hh]; split; [lia | destruct l; [discriminate | exact Hh]]).
+    all: try (rewrite (I0 eq_refl); cbn; split; [reflexivity | eexists [], _; repeat split; auto]).
+    all: try (destruct (I1 (or_introl eq_refl)) as [C Hh]; split; [cbn; lia | eexists l, _; repeat split; eauto]).
+    all: try (destruct (I1 (or_intror eq_refl)) as [C Hh]; split; [cbn; lia | eexists l, _; repeat split; eauto]).
+Qed.
+
+Lemma logs_legal ops : Forall (fun ch => legal_log (clog ch)) (chans (run ops init)).
+Proof.
+  destruct (INV_run ops init INV_init) as [Hch _ _ _ _ _ _].
+  eapply Forall_impl; [|exact Hch]. intros ch [_ _ _ _ _ _ _ H8 _ _ _ _]. unfold legal_log. rewrite H8.
+  unfold expect. destruct (se ch); [discriminate | destruct (eofd ch); discriminate | discriminate].
+Qed.
+
+(* exactly one final close notification once the connection is closed: every session that was told
+   anything has been told connection_lost as its last callback *)
+Lemma logs_finished ops :
+  closed (run ops init) = true -> Forall (fun ch => finished_log (clog ch)) (chans (run ops init)).
+Proof.
+  intros Hc. destruct (INV_run ops init INV_init) as [Hch _ _ Hcl _ _ _].
+  destruct (Hcl Hc) as (_ & _ & _ & _ & A5).
+  apply Forall_forall. intros ch Hin.
+  rewrite Forall_forall in Hch, A5. specialize (Hch ch Hin). specialize (A5 ch Hin). simpl in A5.
+  destruct Hch as [_ _ _ _ _ H6 _ H8 _ _ _ _]. unfold finished_log. rewrite H8. unfold expect.
+  destruct (se ch) eqn:E; auto. specialize (H6 eq_refl). congruence.
+Qed.
+
+Lemma owner_log ops :
+  let s := run ops init in
+  ostate (olog s) <> OBad /\ (closed s = true <-> ostate (olog s) = OL).
+Proof.
+  intros s. destruct (INV_run ops init INV_init) as [_ _ _ Hcl [Ho1 Ho2] _ _]. fold s in Hcl, Ho1, Ho2.
+  rewrite Ho2. destruct (owner_live s) eqn:E, (closed s) eqn:Ec; cbn in Ho1; try discriminate;
+    (split; [destruct (connect_w s); discriminate | split; intros H; try discriminate; auto]).
+  all: destruct (connect_w s); discriminate.
+Qed.
+
+Lemma unregistered ops :
+  closed (run ops init) = true -> Forall (fun ch => reg ch = false) (chans (run ops init)).
+Proof.
+  intros Hc. destruct (INV_run ops init INV_init) as [_ _ _ Hcl _ _ _]. destruct (Hcl Hc) as (_ & _ & _ & _ & A5). exact A5.
+Qed.
